@@ -117,6 +117,11 @@ func (vc *VC) discharge(o *Obligation, dir string, timeoutMs int, idx int) {
 		o.Solver, o.Ms, o.Output = r.solver, r.ms, truncate(r.output, 4000)
 		return true
 	}
+	if o.IsCover && timeoutMs > 3000 {
+		// satisfiability of quantified contexts is often undecided; a cover
+		// query only needs to detect provable unreachability
+		timeoutMs = 3000
+	}
 	fast := timeoutMs
 	if fast > 2000 {
 		fast = 2000
